@@ -933,15 +933,28 @@ class Index(IndexBase):
         key = key_from_container_key(self, key)
 
         if self._map is None and offset is None: # loc_is_iloc
+            # labels are the positions 0 to n - 1: a negative integer is not a label, and must not be read as a position from the end
             if key.__class__ is np.ndarray:
                 if key.dtype == bool: #type: ignore
                     return key
                 if key.dtype != DTYPE_INT_DEFAULT: #type: ignore
                     # if key is an np.array, it must be an int or bool type
                     # could use tolist(), but we expect all keys to be integers
-                    return key.astype(DTYPE_INT_DEFAULT) #type: ignore
+                    key = key.astype(DTYPE_INT_DEFAULT) #type: ignore
+                if len(key) and key.min() < 0: #type: ignore
+                    raise KeyError(key.min()) #type: ignore
             elif key.__class__ is slice:
+                for attr in (key.start, key.stop): #type: ignore
+                    if isinstance(attr, INT_TYPES) and attr < 0:
+                        raise LocInvalid('Invalid loc given in a slice', attr)
                 key = slice_to_inclusive_slice(key) #type: ignore
+            elif isinstance(key, INT_TYPES):
+                if key < 0:
+                    raise KeyError(key)
+            elif isinstance(key, list):
+                for k in key:
+                    if isinstance(k, INT_TYPES) and k < 0:
+                        raise KeyError(k)
             return key
 
         if self._map is None and offset is not None: # loc_is_iloc
